@@ -97,6 +97,65 @@ Definition corner (sx sy sz : bool) (l r b t n f : T) : vec :=
   vecof [pick sx l r; pick sy b t; - pick sz n f; g1].
 Definition corner_image (sx sy sz : bool) : vec := vecof [pm sx; pm sy; pm sz; g1].
 
+(* ---- second round: rotations, perspective, view matrix, ... ------------- *)
+Definition mrow (A : mat) (i : nat) : vec := fun j => A i j.
+Definition mcol (A : mat) (j : nat) : vec := fun i => A i j.
+Definition evec (k : nat) : vec := fun i => if Nat.eqb i k then g1 else g0.
+
+(* Rodrigues: the rotation about the axis u by the angle with cosine c and
+   sine s moves the point p to  c p + s (u x p) + (1 - c) (u . p) u *)
+Definition rodrigues (c s : T) (u p : vec) : vec :=
+  fun i => c * p i + s * cross u p i + (g1 - c) * dot 3 u p * u i.
+(* ... as a grid acting on ROW vectors (p, 1):
+   entry (i, j) = c [i = j] + (1 - c) u_i u_j + s (u x e_i)_j *)
+Definition rodrigues_grid (c s : T) (u : vec) : mat :=
+  fun i j => if Nat.ltb i 3 && Nat.ltb j 3
+             then (if Nat.eqb i j then c else g0) + (g1 - c) * u i * u j
+                  + s * cross u (evec i) j
+             else if Nat.eqb i j then g1 else g0.
+
+(* Mat4.scale multiplies the three diagonal entries (this is A @ diag(s,1)
+   exactly when the other entries of the first three columns are zero) *)
+Definition scale_diag (A : mat) (s : vec) : mat :=
+  fun i j => if Nat.eqb i j && Nat.ltb i 3 then A i j * s i else A i j.
+
+(* the standard perspective matrix (gluPerspective), for row vectors:
+   f = 1 / tan (fovy / 2), fovy in degrees *)
+Definition half_fov (fov : T) : T := (fov * gpi) / gofZ 360.
+Definition perspective_grid (f aspect n fr : T) : mat :=
+  gridof 4 [ f / aspect; g0; g0; g0;
+             g0; f; g0; g0;
+             g0; g0; - (fr + n) / (fr - n); - g1;
+             g0; g0; - (g2 * fr * n) / (fr - n); g0 ].
+
+(* the view matrix of the frame (s, u, -f) placed at p, for row vectors:
+   q |-> ((q - p).s, (q - p).u, -(q - p).f, 1) *)
+Definition view_grid (s u f p : vec) : mat :=
+  fun i j =>
+    if Nat.ltb j 3
+    then (if Nat.ltb i 3 then nth j [s i; u i; - f i] g0
+          else nth j [- dot 3 s p; - dot 3 u p; dot 3 f p] g0)
+    else if Nat.eqb i 3 then g1 else g0.
+Definition vnormalize (n : nat) (u : vec) : vec := fun i => u i / norm n u.
+(* look_at: f = direction to the target, s = f x up^, u = s x f *)
+Definition lookat_f (p t : vec) : vec := vnormalize 3 (vsub t p).
+Definition lookat_s (p t up : vec) : vec := cross (lookat_f p t) (vnormalize 3 up).
+Definition lookat_u (p t up : vec) : vec := cross (lookat_s p t up) (lookat_f p t).
+Definition lookat_grid (p t up : vec) : mat :=
+  view_grid (lookat_s p t up) (lookat_u p t up) (lookat_f p t) p.
+
+(* the 3 x 3 matrices that Mat3.scale / translate / rotate / shear multiply
+   with (as written in the code: scale divides, translate negates x) *)
+Definition grid3 (l : list T) : mat := gridof 3 l.
+Definition m3_scale (sx sy : T) : mat :=
+  grid3 [g1 / sx; g0; g0; g0; g1 / sy; g0; g0; g0; g1].
+Definition m3_translate (tx ty : T) : mat :=
+  grid3 [g1; g0; g0; g0; g1; g0; - tx; ty; g1].
+Definition m3_rotate (c s : T) : mat :=
+  grid3 [c; s; g0; - s; c; g0; g0; g0; g1].
+Definition m3_shear (sx sy : T) : mat :=
+  grid3 [g1; sy; g0; sx; g1; g0; g0; g0; g1].
+
 (* ---- boolean readings, for evaluation on observed outputs -------------- *)
 Definition idx (n : nat) : list nat := seq 0 n.
 Definition eqv (n : nat) (u v : vec) : bool := forallb (fun i => geqb (u i) (v i)) (idx n).
@@ -188,6 +247,76 @@ Definition all_corners (p : bool -> bool -> bool -> bool) : bool :=
   forallb (fun sx => forallb (fun sy => forallb (fun sz => p sx sy sz) [false; true])
                              [false; true]) [false; true].
 
+Definition col3 (A : mat) (j : nat) : vec := fun i => if Nat.ltb i 3 then A i j else g0.
+(* the view matrix, without square roots: third column = minus the unit
+   vector towards the target; first column = f^ x up^ (orthogonal to both,
+   oriented like f x up, of the right length); second = first x f^; last
+   row = minus the position in that frame *)
+Definition lookat_spec : list T -> list T -> bool -> bool :=
+  fun xs out w =>
+    let p := part xs 0 3 in let t := part xs 3 3 in let up := part xs 6 3 in
+    let V := gridof 4 out in
+    let d := vsub t p in
+    let c0 := col3 V 0 in let c1 := col3 V 1 in let c2 := col3 V 2 in
+    let n := cross d up in
+    lenb 16 out && negb w &&
+    parallel 3 c2 d && gltb (dot 3 c2 d) g0 && geqb (dot 3 c2 c2) g1 &&
+    parallel 3 c0 n && gltb g0 (dot 3 c0 n) &&
+    geqb (dot 3 c0 c0 * (dot 3 d d * dot 3 up up)) (dot 3 n n) &&
+    eqv 3 c1 (cross c0 (vneg c2)) &&
+    eqv 3 (fun j => V 3 j) (fun j => - dot 3 (col3 V j) p) &&
+    eqv 4 (fun i => V i 3) (evec 3).
+
+Definition second_round : list (string * spec_fun) :=
+  let A4 := fun xs => gridof 4 (firstn 16 xs) in
+  let A3 := fun xs => gridof 3 (firstn 9 xs) in
+  [ ("Mat4.scale"%string, out_mat 4 (fun xs => scale_diag (A4 xs) (part xs 16 3)));
+    ("Mat4.rotate"%string,
+       out_mat 4 (fun xs => mmul 4 (A4 xs)
+                    (rodrigues_grid (gcos (at_ xs 16)) (gsin (at_ xs 16)) (part xs 17 3))));
+    ("Mat4.from_rotation"%string,
+       out_mat 4 (fun xs => rodrigues_grid (gcos (at_ xs 0)) (gsin (at_ xs 0)) (part xs 1 3)));
+    ("Mat4.perspective_projection"%string,
+       out_mat 4 (fun xs => perspective_grid (g1 / gtan (half_fov (at_ xs 6)))
+                              ((at_ xs 1 - at_ xs 0) / (at_ xs 3 - at_ xs 2))
+                              (at_ xs 4) (at_ xs 5)));
+    ("Mat4.look_at"%string, lookat_spec);
+    ("Mat3.scale"%string, out_mat 3 (fun xs => mmul 3 (A3 xs) (m3_scale (at_ xs 9) (at_ xs 10))));
+    ("Mat3.translate"%string,
+       out_mat 3 (fun xs => mmul 3 (A3 xs) (m3_translate (at_ xs 9) (at_ xs 10))));
+    ("Mat3.rotate"%string,
+       out_mat 3 (fun xs => mmul 3 (A3 xs) (m3_rotate (gcos (gradians (at_ xs 9)))
+                                                      (gsin (gradians (at_ xs 9))))));
+    ("Mat3.shear"%string, out_mat 3 (fun xs => mmul 3 (A3 xs) (m3_shear (at_ xs 9) (at_ xs 10))));
+    ("Mat4.row/0"%string, out_vec 4 (fun xs => mrow (gridof 4 xs) 0));
+    ("Mat4.row/1"%string, out_vec 4 (fun xs => mrow (gridof 4 xs) 1));
+    ("Mat4.row/2"%string, out_vec 4 (fun xs => mrow (gridof 4 xs) 2));
+    ("Mat4.row/3"%string, out_vec 4 (fun xs => mrow (gridof 4 xs) 3));
+    ("Mat4.column/0"%string, out_vec 4 (fun xs => mcol (gridof 4 xs) 0));
+    ("Mat4.column/1"%string, out_vec 4 (fun xs => mcol (gridof 4 xs) 1));
+    ("Mat4.column/2"%string, out_vec 4 (fun xs => mcol (gridof 4 xs) 2));
+    ("Mat4.column/3"%string, out_vec 4 (fun xs => mcol (gridof 4 xs) 3));
+    (* angles (evaluated on angle tokens, Math/QInst.v) *)
+    ("Vec2.from_polar"%string,
+       out_vec 2 (fun xs => vscale (at_ xs 0) (vecof [gcos (at_ xs 1); gsin (at_ xs 1)])));
+    ("Vec2.heading"%string,
+       fun xs out w =>
+         let a := part xs 0 2 in let h := at_ out 0 in
+         lenb 1 out && negb w &&
+         eqv 2 a (vscale (norm 2 a) (vecof [gcos h; gsin h])));
+    ("Vec2.from_heading"%string,
+       out_vec 2 (fun xs => vscale (norm 2 (part xs 0 2))
+                                   (vecof [gcos (at_ xs 2); gsin (at_ xs 2)])));
+    ("Vec2.rotate"%string,
+       out_vec 2 (fun xs => let c := gcos (at_ xs 2) in let s := gsin (at_ xs 2) in
+                            vecof [c * at_ xs 0 - s * at_ xs 1; s * at_ xs 0 + c * at_ xs 1])) ]
+  ++ flat_map (fun cn : string * nat =>
+       let (c, n) := cn in
+       [ ((c ++ ".__round__/n")%string, out_vec n (fun xs => fun i => ground (vecof xs i) 0));
+         ((c ++ ".__round__/2")%string, out_vec n (fun xs => fun i => ground (vecof xs i) 2)) ])
+     [ ("Vec2"%string, 2%nat); ("Vec3"%string, 3%nat); ("Vec4"%string, 4%nat);
+       ("Mat3"%string, 9%nat); ("Mat4"%string, 16%nat) ].
+
 Definition spec_table : list (string * spec_fun) :=
   [ ("clamp"%string, out_num (fun xs => clamp_spec (at_ xs 0) (at_ xs 1) (at_ xs 2)));
     ("Vec2.x"%string, out_num (fun xs => at_ xs 0));
@@ -231,9 +360,12 @@ Definition spec_table : list (string * spec_fun) :=
        ("Mat4.from_scale"%string, out_mat 4 (fun xs => scale_grid (vecof xs)));
        ("Mat4.translate"%string,
           out_mat 4 (fun xs => mmul 4 (gridof 4 (firstn 16 xs))
-                                    (translation_grid (part xs 16 3)))) ].
+                                    (translation_grid (part xs 16 3)))) ]
+  ++ second_round.
 
 (* input domain: what the property quantifies over *)
+Definition in_unit_box (u : vec) : bool :=
+  forallb (fun i => gleb (gabs (u i)) g1) (idx 3).
 Definition all_nonzero (n : nat) (u : vec) : bool :=
   forallb (fun i => negb (geqb (u i) g0)) (idx n).
 Definition wf_table : list (string * (list T -> bool)) :=
@@ -244,7 +376,22 @@ Definition wf_table : list (string * (list T -> bool)) :=
     ("Vec3.limit"%string, fun xs => gleb g0 (at_ xs 3));
     ("Mat4.orthogonal_projection"%string,
        fun xs => negb (geqb (at_ xs 0) (at_ xs 1)) && negb (geqb (at_ xs 2) (at_ xs 3))
-                 && negb (geqb (at_ xs 4) (at_ xs 5))) ].
+                 && negb (geqb (at_ xs 4) (at_ xs 5)));
+    (* the axis has entries in [-1, 1] (the assert of Mat4.rotate) *)
+    ("Mat4.rotate"%string, fun xs => in_unit_box (part xs 17 3));
+    ("Mat4.from_rotation"%string, fun xs => in_unit_box (part xs 1 3));
+    ("Mat4.perspective_projection"%string,
+       fun xs => negb (geqb (at_ xs 0) (at_ xs 1)) && negb (geqb (at_ xs 2) (at_ xs 3))
+                 && negb (geqb (at_ xs 4) (at_ xs 5)) && negb (geqb (at_ xs 4) g0)
+                 && negb (geqb (gtan (half_fov (at_ xs 6))) g0));
+    (* target <> position, up not parallel to the viewing direction *)
+    ("Mat4.look_at"%string,
+       fun xs => negb (is_zero 3 (cross (vsub (part xs 3 3) (part xs 0 3)) (part xs 6 3))));
+    ("Mat3.scale"%string, fun xs => negb (geqb (at_ xs 9) g0) && negb (geqb (at_ xs 10) g0));
+    (* the heading is defined (not the zero vector) and is not pi, which has
+       no token *)
+    ("Vec2.heading"%string, fun xs => negb (geqb (norm 2 (part xs 0 2) + at_ xs 0) g0));
+    ("Vec2.rotate"%string, fun xs => negb (geqb (norm 2 (part xs 0 2) + at_ xs 0) g0)) ].
 
 Fixpoint lookup {A : Type} (k : string) (l : list (string * A)) : option A :=
   match l with
